@@ -15,7 +15,7 @@
                          the grammar is accepted and nothing is parsed partially.
    The non-integer NUMBERs Lark admits are outside the model; that the code rejects them (parser or int()) is
    checked by the tie, not proved. *)
-From Coq Require Import String List NArith ZArith.
+From Coq Require Import String Ascii List NArith ZArith.
 Require Import TV.Model.Lex TV.Model.Grammar TV.Proofs.LexProofs TV.Proofs.GrammarProofs.
 Import ListNotations.
 
